@@ -7,7 +7,7 @@ From BT Require Import Model.Skel Model.SkelTie Proof.SkelCert Proof.SkelProofs.
    operation of their own; Wait is one receive from p.finished, which is made once (in
    NewProgram) and only ever closed; p.msgs is a rendezvous channel (Send before the loop blocks) *)
 Theorem C13_tie : api_guarded = true /\ rendezvous_channels = true /\ nothing_unsupported = true /\ G = guards_of_gen /\
-  bare_ops_ok = true /\ shapes_ok_for ["Send"; "Quit"; "Wait"; "Println"; "Printf"; "Kill"; "shutdown"]%string = true.
+  bare_ops_ok = true /\ shapes_ok_for ["NewProgram"; "Send"; "Quit"; "Wait"; "Println"; "Printf"; "Kill"; "shutdown"]%string = true.
 Proof. vm_compute. repeat split. Qed.
 Print Assumptions C13_tie.
 
